@@ -546,6 +546,19 @@ func (fr *Frame) convert(x *ssa.Convert, pc *string, st *State) {
 		fr.vals[x] = []string{a}
 	case fs == ts && (fs == "String" || fs == "Str"):
 		fr.vals[x] = []string{a}
+	case fs == "Slice" && (ts == "String" || ts == "Str") && isByteSlice(from):
+		// string(b): an uninterpreted function of the bytes
+		fr.set(x, to, vc.bytesToStr(st, a))
+	case (fs == "String" || fs == "Str") && ts == "Slice" && isByteSlice(to):
+		// []byte(s): a fresh array whose content converts back to s
+		ref := fr.alloc(st)
+		h := d.sliceHeap(types.Typ[types.Uint8])
+		arr := vc.fresh("bytes", "(Array Int Int)")
+		ln := vc.fresh("byteslen", "Int")
+		vc.stSet(st, h, fmt.Sprintf("(store %s %s %s)", vc.stGet(st, h), ref, arr))
+		sl := fmt.Sprintf("(mk-slice %s 0 %s %s)", ref, ln, ln)
+		fr.vals[x] = []string{sl}
+		*pc = fr.assume(*pc, and(fmt.Sprintf("(>= %s 0)", ln), fmt.Sprintf("(= %s %s)", vc.bytesToStr(st, sl), a)))
 	default:
 		vc.note("conversion %s -> %s abstracted", typeName(from), typeName(to))
 		n := vc.fresh(fr.prefix+x.Name(), ts)
@@ -775,4 +788,26 @@ func funcNames(f *ssa.Function) []string {
 
 func typeNameShort(t types.Type) string {
 	return types.TypeString(t, func(p *types.Package) string { return p.Name() })
+}
+
+func isByteSlice(t types.Type) bool {
+	s, ok := t.Underlying().(*types.Slice)
+	if !ok {
+		return false
+	}
+	b, ok := s.Elem().Underlying().(*types.Basic)
+	return ok && b.Kind() == types.Uint8
+}
+
+// bytesToStr: string(b) as an uninterpreted function of the backing array, offset and length.
+func (vc *VC) bytesToStr(st *State, sl string) string {
+	d := vc.d
+	ss := d.sortOf(types.Typ[types.String])
+	d.add("bytes2str", fmt.Sprintf("(declare-fun bytes2str ((Array Int Int) Int Int) %s)", ss))
+	h := d.sliceHeap(types.Typ[types.Uint8])
+	off := "(s.off " + sl + ")"
+	if p := slParts(sl); p != nil {
+		off = p[1]
+	}
+	return fmt.Sprintf("(bytes2str (select %s %s) %s %s)", vc.stGet(st, h), slArr(sl), off, slLen(sl))
 }
